@@ -19,7 +19,7 @@ from vf.props.common import harness_error, inconclusive, proved, violation
 ID = "C17"
 LEVEL = "model_checking"
 ITEM_BUDGET_S = {"quick": 400, "thorough": 1500}
-QT = {"quick": 15000, "thorough": 60000}
+QT = {"quick": 15000, "thorough": 20000}
 _TIER = "quick"
 PATHS_SEEN = set()
 
@@ -80,7 +80,7 @@ def items(tier, seed):
     if tier == "thorough":
         fam += K.random_recipes(seed, 150, 2)
     its = [("twin", 0)] + [("rs", ch) for ch in K.chunks(fam, 2)]
-    return its + K.touched_items(its, 3 if tier == "quick" else 1, ("rs",))
+    return its + K.touched_items(its, 3, ("rs",))
 
 
 def observe(recipe, order, val):
